@@ -260,6 +260,7 @@ enum OpKind : int
     OP_COMPARE,         // a0 lhs operand, a1 rhs operand, a2 operand kinds
     OP_ITER,            // a0 slot, a1 x, a2 y : iterator arithmetic / comparisons
     OP_MAKE_EQUAL,      // a0 dst slot, a1 src slot, a2 history mode, a3 tweak : rebuild dst with src's logical content through a different history
+    OP_MAKE_ALIAS,      // a0,a1 dst slots, a2/a3 seed, a4 form : two elements of different field sizes whose packed bytes are identical
     OP_COUNT
 };
 
@@ -268,7 +269,8 @@ inline const char* const OP_NAMES[OP_COUNT] = {
     "erase_range",   "clear",             "reserve",       "fill",         "copy_construct", "move_construct",
     "copy_assign",   "move_assign",       "swap",          "write",        "ref_assign",   "ref_swap",
     "algo",          "elem_construct",    "elem_copy",     "elem_assign",  "elem_swap",    "elem_to_ref",
-    "ref_to_elem",   "elem_destroy",      "elem_write",    "compare",      "iter",         "make_equal"};
+    "ref_to_elem",   "elem_destroy",      "elem_write",    "compare",      "iter",         "make_equal",
+    "make_alias"};
 
 struct Op
 {
@@ -335,6 +337,8 @@ enum Probe : int
     PB_UNEQUAL_ALLOC_OPERANDS,
     PB_WRITE_THROUGH_PROXY,
     PB_ALGO_PERMUTATION,
+    PB_ALIASING_BYTE_STREAMS,
+    PB_ALIASING_CONFIRMED,
     PB_COUNT
 };
 
@@ -382,7 +386,8 @@ inline const char* const PROBE_NAMES[PB_COUNT] = {
     "unequal_alloc_operands",
     "write_through_proxy",
     "algo_permutation",
-};
+    "aliasing_byte_streams_built",
+    "aliasing_byte_streams_confirmed"};
 
 struct Counters
 {
